@@ -46,11 +46,12 @@ var properties = map[string]PropSpec{
 	},
 	"C10": {
 		Level: "other",
-		Explanation: "R-LOCK: the lock discipline that atomicity of the eight content mutators needs, decided on the SSA of everything reachable from Push, Pop, Insert, Remove, Replace, Swap, Reverse and Reset. L1: every store of a slice header or an element slot in that scope lies in the held region (CFG-reachable from lock() without passing unlock(), and dominated by the lock()) of the lock of the very stack it writes, or in a function all of whose call sites - transitively - lie in such regions. L2: (a) a function that locks its receiver does not use it before the acquisition, so no validation (emptiness, bounds, capacity) can be stale; (b) the capacity invariant (R-CAP), the configuration-slot invariant (R-SLOT0) and the list-operation specifications (R-SEQ) are re-proved in concurrent mode, in which acquiring a lock forgets everything known about shared memory - so the guards protecting each write are evaluated inside the same critical section as the write (capacity never exceeded, configuration never returned or removed, Pop on a stack emptied by a competitor returns (nil,false)). L3: the lock bookkeeping (nodeConfig.ldr) is written after Mutex.Lock and before Mutex.Unlock. L4: nothing called while a lock is held locks the same stack again (self-deadlock; lock summaries rooted at parameters, whole package), and every lock() is followed at once by a deferred unlock() or by an unlock() on every path to a return (no leaked lock). L5: reads of the shared configuration slot made without any lock - the exported wrappers' IsInit/IsEmpty/getState pre-checks and lock()'s own lookup of the mutex - are reported; they are genuine data races (the mutex lives inside slot 0 of the data it protects) and are listed as known findings.",
+		Explanation: "R-LOCK: the lock discipline that atomicity of the eight content mutators needs, decided on the SSA of everything reachable from Push, Pop, Insert, Remove, Replace, Swap, Reverse and Reset. L1: every store of a slice header or an element slot in that scope lies in the held region (CFG-reachable from lock() without passing unlock(), and dominated by the lock()) of the lock of the very stack it writes, or in a function all of whose call sites - transitively - lie in such regions. L2: (a) a function that locks its receiver does not use it before the acquisition, so no validation (emptiness, bounds, capacity) can be stale; (b) the capacity invariant (R-CAP), the configuration-slot invariant (R-SLOT0) and the list-operation specifications (R-SEQ) are re-proved in concurrent mode, in which acquiring a lock forgets everything known about shared memory - so the guards protecting each write are evaluated inside the same critical section as the write (capacity never exceeded, configuration never returned or removed, Pop on a stack emptied by a competitor returns (nil,false)). L3: the lock bookkeeping (nodeConfig.ldr) is written after Mutex.Lock and before Mutex.Unlock. L4: nothing called while a lock is held locks the same stack again (self-deadlock; lock summaries rooted at parameters, whole package), and every lock() is followed at once by a deferred unlock() or by an unlock() on every path to a return (no leaked lock). L5: reads of the shared configuration slot made without any lock - the exported wrappers' IsInit/IsEmpty/getState pre-checks and lock()'s own lookup of the mutex - are reported; they are genuine data races (the mutex lives inside slot 0 of the data it protects) and are listed as known findings. L7: the mutex installed is a fresh allocation (no two stacks share a mutex).",
 		NotDecided: "linearizability of return values and final content over all schedules, and data-race freedom as a whole: these quantify over interleavings; a lock-discipline analysis gives necessary conditions. Lock-order deadlocks between two different stacks (Transfer, nested Reveal) are not analysed.",
 		Run: func(c *Ctx) {
 			c.ruleInv()
 			c.ruleLocks()
+			c.ruleMutexFresh()
 			c.withConcurrent(func() {
 				c.ruleCapInv()
 				c.ruleSlot0Stores()
@@ -68,13 +69,13 @@ var properties = map[string]PropSpec{
 				c.nilA = saved
 			})
 			c.rep.floor("R-LOCK", 60)
-			c.rep.floor("R-CAP", 10)
+			c.rep.floor("R-CAP", 7)
 			c.rep.floor("R-SEQ", 19)
 		},
 	},
 	"C12": {
 		Level: "other",
-		Explanation: "R-CONV: a user-declared alias of Stack/Condition (or a pointer to one) reaches the same code as the native value - the necessary condition for behaving like it. ASSERT: the package recognises a Stack or Condition by a plain type assertion (which no alias satisfies) nowhere except in the two converters themselves and in three positive fast paths (isNesting, canPushNester, the Condition-side no-nesting filter) whose other branch goes through the converter; the census of such assertions is re-done on every run. FIRST: in condition.string and stack.defaultAssertionHandler a value is rendered through its own String method or the primitive stringer only on paths where both converters have been applied to that very value and declined it, so an alias that has its own String method is still rendered as the Stack/Condition it is. USES: each consumer named by the property (String on both types, IsEqual, Unmarshal on both types, Traverse's two helpers, both IsNesting, Condition.Len, both no-nesting filters, Defrag, Transfer) calls the converter(s); stackageStructsEqual applies IsEqual to the converted first operand with the converted second operand; ConvertStack/ConvertCondition return the converter's results unchanged. SELF: every (zero,false) return path of each converter is justified by a nil argument, a zero native or converted instance, or ConvertibleTo()==false evaluated on derefPtr(typOf(u), valOf(u)) of the argument itself - nothing else can decline a value (e.g. a kind test before pointers are followed). TYPEID: two reflect.Types are compared for identity only inside the confirmed leaf comparers (channels, functions, maps) that valuesEqual reaches after both converters declined. derefPtr follows pointers to the end, and applies Elem()/Indirect only to a Value that tested non-nil (a typed nil pointer to an alias stays a pointer and is declined, not turned into the zero Value).",
+		Explanation: "R-CONV: a user-declared alias of Stack/Condition (or a pointer to one) reaches the same code as the native value - the necessary condition for behaving like it. ASSERT: the package recognises a Stack or Condition by a plain type assertion (which no alias satisfies) nowhere except in the two converters themselves and in three positive fast paths (isNesting, canPushNester, the Condition-side no-nesting filter) whose other branch goes through the converter; the census of such assertions is re-done on every run. FIRST: in condition.string and stack.defaultAssertionHandler a value is rendered through its own String method or the primitive stringer only on paths where both converters have been applied to that very value and declined it, so an alias that has its own String method is still rendered as the Stack/Condition it is. USES: each consumer named by the property (String on both types, IsEqual, Unmarshal on both types, Traverse's two helpers, both IsNesting, Condition.Len, both no-nesting filters, Defrag, Transfer) calls the converter(s); stackageStructsEqual applies IsEqual to the converted first operand with the converted second operand; ConvertStack/ConvertCondition return the converter's results unchanged. SELF: every (zero,false) return path of each converter is justified by a nil argument, a zero native or converted instance, or ConvertibleTo()==false evaluated on derefPtr(typOf(u), valOf(u)) of the argument itself - nothing else can decline a value (e.g. a kind test before pointers are followed). TYPEID: two reflect.Types are compared for identity only inside the confirmed leaf comparers (channels, functions, maps) that valuesEqual reaches after both converters declined. derefPtr follows pointers to the end, and applies Elem()/Indirect only to a Value that tested non-nil (a typed nil pointer to an alias stays a pointer and is declined, not turned into the zero Value). FIRST also covers the equality functions: none of them may judge a value by its own String method before both converters declined it.",
 		NotDecided: "that the results (String, IsEqual in both directions, Unmarshal, Traverse, ...) coincide with those of the native tree: functional equality; the rule ensures the alias reaches the native code path. derefPtr's pointer-following loop is covered for panics by C08, not for 'all levels' as a functional statement.",
 		Run: func(c *Ctx) {
 			c.ruleDerefLoop() // pointers to aliases: followed to the end, and only while non-nil
@@ -87,14 +88,14 @@ var properties = map[string]PropSpec{
 	},
 	"C16": {
 		Level: "other",
-		Explanation: "Marshal returns normally for every []any and ends in 'error, or an initialised receiver'. PANIC: the nil / type-assertion / bounds / reflect census restricted to everything reachable from Marshal, with preconditions checked at every call site and none allowed at the exported entry: in[0], in[1:], the CONDITION row positions 1..3 and every assertion on a label, keyword, operator or nested slice are guarded for every shape of input (empty and nested envelopes, rows of any width, wrongly typed fields). OUT: marshalDefault's 70-odd return path states each yield a non-nil error, a Stack built by a constructor, or a Condition for which extractConditionValues reported ok (= IsInit() of the Condition it returns, built only from a row of width 4); Marshal's return paths each yield a non-nil error, a receiver seated with the decoded Stack under IsInit()==true, marshalDefault's own error where it produced nothing, or - receiver already initialised - at most one Push of exactly one decoded value. LABEL: every keyword comparison is made on uc(label); the reader knows every word the writer can emit and CONDITION; an unrecognised first element yields Basic().Push(in...), a recognised one stackByWord(label).Push(in[1:]...). ROW: width 4 is required and keyword/operator/expression are read from positions 1/2/3 by checked assertions. REPROC: every nested []any entry 0..Len-1 is decoded by marshalDefault itself and replaced in place by the initialised Stack/Condition it yields. The census covers everything reachable from Marshal, String, Unmarshal and IsEqual (the methods the statement says must return normally on the result). R-CONDSTORE: an operator taken from a CONDITION row is refused, not invoked, when it is nil or a nil pointer. The decoder creates its stacks without a capacity argument. On the built-in path of an initialised receiver Marshal returns nil only where Len() is known to differ from the Len() read before the push (a full, read-only or refusing receiver yields an error); R-DISPATCH for Marshal: no shortcut around the built-in reader. R-NILPTR: a method of the package's own interfaces (Operator, Interface) is invoked on a user-supplied value only where an in-package nil-pointer predicate said no about it, or on the operator stored in a Condition: a nil *Stack / *Condition / *ComparisonOperator among the values never has a method called through it.",
+		Explanation: "Marshal returns normally for every []any and ends in 'error, or an initialised receiver'. PANIC: the nil / type-assertion / bounds / reflect census restricted to everything reachable from Marshal, with preconditions checked at every call site and none allowed at the exported entry: in[0], in[1:], the CONDITION row positions 1..3 and every assertion on a label, keyword, operator or nested slice are guarded for every shape of input (empty and nested envelopes, rows of any width, wrongly typed fields). OUT: marshalDefault's 70-odd return path states each yield a non-nil error, a Stack built by a constructor, or a Condition for which extractConditionValues reported ok (= IsInit() of the Condition it returns, built only from a row of width 4); Marshal's return paths each yield a non-nil error, a receiver seated with the decoded Stack under IsInit()==true, marshalDefault's own error where it produced nothing, or - receiver already initialised - at most one Push of exactly one decoded value. LABEL: every keyword comparison is made on uc(label); the reader knows every word the writer can emit and CONDITION; an unrecognised first element yields Basic().Push(in...), a recognised one stackByWord(label).Push(in[1:]...). ROW: width 4 is required and keyword/operator/expression are read from positions 1/2/3 by checked assertions. REPROC: every nested []any entry 0..Len-1 is decoded by marshalDefault itself and replaced in place by the initialised Stack/Condition it yields. The census covers everything reachable from Marshal, String, Unmarshal and IsEqual (the methods the statement says must return normally on the result). R-CONDSTORE: an operator taken from a CONDITION row is refused, not invoked, when it is nil or a nil pointer. The decoder creates its stacks without a capacity argument. On the built-in path of an initialised receiver Marshal returns nil only where Len() is known to differ from the Len() read before the push (a full, read-only or refusing receiver yields an error); R-DISPATCH for Marshal: no shortcut around the built-in reader. R-NILPTR: a method of the package's own interfaces (Operator, Interface) is invoked on a user-supplied value only where an in-package nil-pointer predicate said no about it, or on the operator stored in a Condition: a nil *Stack / *Condition / *ComparisonOperator among the values never has a method called through it. The census also covers the package's own Operator implementation (ComparisonOperator.String/Context), reached through the interface. R-TT: without no-nesting canPushNester refuses nothing (a zero Stack entry is kept).",
 		NotDecided: "what a user-installed marshaler closure does; panics inside user String()/Operator code.",
 		Run: func(c *Ctx) {
 			c.ruleInv()
 			{
 				// Marshal itself, and what the statement says must also return normally on its result
 				var roots []*ssa.Function
-				for _, n := range []string{"(*Stack).Marshal", "Stack.String", "Stack.Unmarshal", "Stack.IsEqual"} {
+				for _, n := range []string{"(*Stack).Marshal", "Stack.String", "Stack.Unmarshal", "Stack.IsEqual", "ComparisonOperator.String", "ComparisonOperator.Context"} {
 					if f := c.anchor("R-MARSHAL", n); f != nil {
 						roots = append(roots, f)
 					}
@@ -113,6 +114,7 @@ var properties = map[string]PropSpec{
 			c.ruleMarshalOut()
 			c.ruleMarshalUnlimited()
 			c.ruleMarshalGain()
+			c.ttCanPushNester() // "a BASIC stack holding all entries": without no-nesting nothing offered is refused, a zero Stack included
 			c.ruleDispatchFor(map[string]bool{"(*Stack).Marshal": true})
 			c.rep.floor("R-MARSHAL", 5)
 			c.rep.floor("R-TBL", 6)
@@ -121,7 +123,7 @@ var properties = map[string]PropSpec{
 	},
 	"C04": {
 		Level: "other",
-		Explanation: "Writer (Unmarshal) and reader (Marshal) agree on the wire format - the structural precondition of the round trip. KINDS: constructor -> kind constant -> word (stackType.String) -> constructor (stackByWord) is the identity on AND, OR, NOT, LIST, BASIC, the words are upper case, and the reader's dispatch knows each of them and CONDITION. LABEL: every keyword comparison on the reader side is made on uc(label), so the lower-case words a case-folded stack emits are honoured. WRITE: stack.unmarshalDefault emits the kind word first and then exactly one entry per slot 0..Len-1 in ascending order - nil slots included (no dependence on the lookup's found flag) - a nested Stack or Condition (recognised through both alias converters) as its own unmarshalled form, anything else as is; an error ends the loop. ROW: a Condition is written as [CONDITION, keyword, operator, expression-or-its-Unmarshal()] and read back from a row of width 4, positions 1/2/3, by checked assertions, the expression decoded by marshalDefault when it is a slice. REPROC: the reader re-processes every entry 0..Len-1 of the stack it built and replaces entry i only by the initialised Stack/Condition marshalDefault made of that very entry. R-MARSHAL also requires that the decoder creates its stacks without a capacity argument (a capacity would be observable and could drop entries). R-DISPATCH (restricted to Stack.Unmarshal, Condition.Unmarshal, Marshal): with no closure installed the built-in writer/reader runs on every path - no shortcut around it. R-SEQ (Push wrapper and push loops, from C01): the reader rebuilds through Push, whose arguments reach the worker unchanged and are appended in order. The CONDITION row reader yields no Condition only when its nested expression decoded to neither an initialised Stack nor an initialised Condition (an empty Stack is still a Stack). R-SEQ for Replace (nested rows are converted in place through it: every position 0..Len-1 can be replaced) and R-BACKCAP (the capacity IsEqual compares is the configured one).",
+		Explanation: "Writer (Unmarshal) and reader (Marshal) agree on the wire format - the structural precondition of the round trip. KINDS: constructor -> kind constant -> word (stackType.String) -> constructor (stackByWord) is the identity on AND, OR, NOT, LIST, BASIC, the words are upper case, and the reader's dispatch knows each of them and CONDITION. LABEL: every keyword comparison on the reader side is made on uc(label), so the lower-case words a case-folded stack emits are honoured. WRITE: stack.unmarshalDefault emits the kind word first and then exactly one entry per slot 0..Len-1 in ascending order - nil slots included (no dependence on the lookup's found flag) - a nested Stack or Condition (recognised through both alias converters) as its own unmarshalled form, anything else as is; an error ends the loop. ROW: a Condition is written as [CONDITION, keyword, operator, expression-or-its-Unmarshal()] and read back from a row of width 4, positions 1/2/3, by checked assertions, the expression decoded by marshalDefault when it is a slice. REPROC: the reader re-processes every entry 0..Len-1 of the stack it built and replaces entry i only by the initialised Stack/Condition marshalDefault made of that very entry. R-MARSHAL also requires that the decoder creates its stacks without a capacity argument (a capacity would be observable and could drop entries). R-DISPATCH (restricted to Stack.Unmarshal, Condition.Unmarshal, Marshal): with no closure installed the built-in writer/reader runs on every path - no shortcut around it. R-SEQ (Push wrapper and push loops, from C01): the reader rebuilds through Push, whose arguments reach the worker unchanged and are appended in order. The CONDITION row reader yields no Condition only when its nested expression decoded to neither an initialised Stack nor an initialised Condition (an empty Stack is still a Stack). R-SEQ for Replace (nested rows are converted in place through it: every position 0..Len-1 can be replaced) and R-BACKCAP (the capacity IsEqual compares is the configured one). The label written is the kind word, never a presentation setting; an uninitialised receiver that adopts the decoded stack returns the decoder's own verdict (an empty stack such as [AND] is a stack).",
 		NotDecided: "that Marshal(Unmarshal(S)) is deeply equal to S (value equality over trees; options such as capacity, fold or symbols are not part of the wire format by design); user-installed marshaler/unmarshaler closures.",
 		Run: func(c *Ctx) {
 			c.ruleInv()
@@ -138,6 +140,8 @@ var properties = map[string]PropSpec{
 			c.seqPushLoops()
 			c.seqReplace() // nested rows are converted in place through Replace: every position 0..Len-1 can be replaced
 			c.ruleBackingCap()
+			c.ruleEqKindWord() // the label written is the kind word (never a symbol)
+			c.ruleMarshalGain() // adoption by an uninitialised receiver returns the decoder's verdict (an empty stack is a stack)
 			c.rep.floor("R-DISPATCH", 3)
 			c.rep.floor("R-TBL", 7)
 			c.rep.floor("R-MARSHAL", 1)
@@ -162,7 +166,7 @@ var properties = map[string]PropSpec{
 	},
 	"C05": {
 		Level: "other",
-		Explanation: "Necessary conditions of 'IsEqual rejects any difference and never panics', decided on everything reachable from Stack.IsEqual and Condition.IsEqual. R-LOOPRET (every comparison loop: stack.isEqual, slicesEqual, structsEqual, mapsEqual): the error variable is a latch - each comparison whose verdict is stored into it is made only in states where it is still nil, so a difference found at one element can never be overwritten by a later nil; the function returns that variable (or, straight out of the loop, the verdict/fresh error just obtained); counting loops start at 0, advance by exactly one, fetch both sides at the loop counter itself, are bounded by the length (Len/NumField/ulen) and can be left only when the counter reached the bound, a difference is recorded, or an error is returned. NILRET: each equality function returns nil only on paths on which every comparison it made outside a loop returned nil. R-COVER: on every accepting path of condition.isEqual the keywords were compared equal, the operators are both absent or their String() and Context() were both compared equal, and the verdict returned is valuesEqual(r.ex, o.ex); on every accepting path of stack.isEqual the two are the same object or capLenEqual held, the kinds were compared equal, and the element loop compares r.index(i) with o.index(i). R-NIL/R-REFL/R-CANIF/R-TA/R-BND census over the scope: typed nil pointers of any depth, zero reflect.Values, unexported struct fields, missing map keys cannot panic; every reflect.Value method called is classified (panic conditions tabled or known total) and Value.Equal is reached only with operands accepted by isKnownPrimitive. R-DISPATCH (restricted to the two IsEqual dispatchers): a nil verdict comes from the built-in comparison or from an installed closure, never from an exit taken ahead of them. derefPtr follows a pointer chain to its end: its loop is left only on a non-pointer type, a non-pointer value or a nil pointer (no hop limit). External deciders: every function from outside the package that returns a bool or an int and is called inside the equality scope must be in a table of reviewed functions (reflect's IsValid/IsNil/IsZero/CanInterface/Len/Cap/Equal, unicode.IsUpper in foldValue, exact comparers of strings/bytes); anything else - strings.EqualFold, reflect.DeepEqual, prefix/substring tests - is reported as an unreviewed notion of equality. R-BACKCAP: the capacity compared is the configured one, never the backing array's. R-CONV (all of C12's converter rules): a nested Stack/Condition is declined by the converters only when nil, zero or unrelated - otherwise it would be compared as a plain struct, whose unexported fields are skipped - and type identity is tested only in the confirmed leaf comparers. The kind two stacks are compared by carries no presentation setting (symbol, delimiter).",
+		Explanation: "Necessary conditions of 'IsEqual rejects any difference and never panics', decided on everything reachable from Stack.IsEqual and Condition.IsEqual. R-LOOPRET (every comparison loop: stack.isEqual, slicesEqual, structsEqual, mapsEqual): the error variable is a latch - each comparison whose verdict is stored into it is made only in states where it is still nil, so a difference found at one element can never be overwritten by a later nil; the function returns that variable (or, straight out of the loop, the verdict/fresh error just obtained); counting loops start at 0, advance by exactly one, fetch both sides at the loop counter itself, are bounded by the length (Len/NumField/ulen) and can be left only when the counter reached the bound, a difference is recorded, or an error is returned. NILRET: each equality function returns nil only on paths on which every comparison it made outside a loop returned nil. R-COVER: on every accepting path of condition.isEqual the keywords were compared equal, the operators are both absent or their String() and Context() were both compared equal, and the verdict returned is valuesEqual(r.ex, o.ex); on every accepting path of stack.isEqual the two are the same object or capLenEqual held, the kinds were compared equal, and the element loop compares r.index(i) with o.index(i). R-NIL/R-REFL/R-CANIF/R-TA/R-BND census over the scope: typed nil pointers of any depth, zero reflect.Values, unexported struct fields, missing map keys cannot panic; every reflect.Value method called is classified (panic conditions tabled or known total) and Value.Equal is reached only with operands accepted by isKnownPrimitive. R-DISPATCH (restricted to the two IsEqual dispatchers): a nil verdict comes from the built-in comparison or from an installed closure, never from an exit taken ahead of them. derefPtr follows a pointer chain to its end: its loop is left only on a non-pointer type, a non-pointer value or a nil pointer (no hop limit). External deciders: every function from outside the package that returns a bool or an int and is called inside the equality scope must be in a table of reviewed functions (reflect's IsValid/IsNil/IsZero/CanInterface/Len/Cap/Equal, unicode.IsUpper in foldValue, exact comparers of strings/bytes); anything else - strings.EqualFold, reflect.DeepEqual, prefix/substring tests - is reported as an unreviewed notion of equality. R-BACKCAP: the capacity compared is the configured one, never the backing array's. R-CONV (all of C12's converter rules): a nested Stack/Condition is declined by the converters only when nil, zero or unrelated - otherwise it would be compared as a plain struct, whose unexported fields are skipped - and type identity is tested only in the confirmed leaf comparers. The kind two stacks are compared by carries no presentation setting (symbol, delimiter). isNumberPrimitive recognises all 14 numeric types of the language; capLenEqual is true exactly when capacities and lengths both agree (R-TT).",
 		NotDecided: "symmetry of the verdict and completeness of rejection for every leaf kind (semantics of reflect.Value.Equal, kind lattice, map iteration): value-level reasoning. Known gap observed by testing, not decided here: a []Stack / []Condition leaf is compared through reflect.Values, which skips the unexported embedded pointer (two such leaves differing only inside a nested stack compare equal).",
 		Run: func(c *Ctx) {
 			c.ruleInv()
@@ -186,17 +190,19 @@ var properties = map[string]PropSpec{
 			c.ruleDispatchFor(map[string]bool{"Stack.IsEqual": true, "Condition.IsEqual": true})
 			c.ruleDerefLoop()
 			c.ruleEqKindWord()
+			c.ruleNumericPrimitives()
+			c.ttCapLenEqual()
 			c.ruleEqDeciders(scope)
 			c.ruleBackingCap() // the capacity compared is the configured one, never the backing array's
 			c.ruleConv()       // the converters decline only nil, zero and unrelated values (else a nested instance is compared as a plain struct)
-			c.rep.floor("R-LOOPRET", 18)
+			c.rep.floor("R-LOOPRET", 14)
 			c.rep.floor("R-COVER", 2)
 			c.rep.floor("R-REFL", 20)
 		},
 	},
 	"C07": {
 		Level: "other",
-		Explanation: "Traverse is implemented by four loop-free, mutually recursive functions; stepwise Index descent is a finite decision at each level, so agreement is decided per level and follows for every path length and tree by induction on the path. R-LEVEL: each level consumes exactly one path element - stack.traverse reads indices[0] only, every call inside the group passes the path on unchanged, and the single recursive call of traverse receives exactly indices[1:]; the path is used for nothing else. R-TRAV (tables, return paths enumerated exactly): traverse hands the handler the element stack.index returned for indices[0] and only when that lookup reported it found (non-nil), otherwise (nil,false) - also for an invalid receiver and an empty path; traverseStack returns (value,true) for a Stack/alias at the end of the path, the results of the descent into the Stack it converts to when elements remain, (nil,false) for a non-Stack; traverseStackInCondition returns (the Condition,true) at the end of the path, continues with the Condition's own Expression() when elements remain, (nil,false) for a non-Condition; the handler returns the Stack helper's results if it succeeded, else the Condition helper's, else (element,true) for a leaf at the end of the path, else (nil,false); Stack.Traverse forwards path and results and yields (nil,false) when uninitialised. Lookup = the same stack.index that Index uses (position translation proved in C01). R-NIL/R-REFL/R-BND/R-TA census restricted to everything reachable from Traverse: no tree or path can panic. R-CONV (from C12): 'descendable' is what the converters say, and they decline only nil, zero and unrelated values on every path (no cached or validity-dependent verdict). stack.traverse gives up (returns nothing without consulting the handler) only because the receiver is invalid, the path is empty or the lookup itself - which honours the index options - reported 'not found'.",
+		Explanation: "Traverse is implemented by four loop-free, mutually recursive functions; stepwise Index descent is a finite decision at each level, so agreement is decided per level and follows for every path length and tree by induction on the path. R-LEVEL: each level consumes exactly one path element - stack.traverse reads indices[0] only, every call inside the group passes the path on unchanged, and the single recursive call of traverse receives exactly indices[1:]; the path is used for nothing else. R-TRAV (tables, return paths enumerated exactly): traverse hands the handler the element stack.index returned for indices[0] and only when that lookup reported it found (non-nil), otherwise (nil,false) - also for an invalid receiver and an empty path; traverseStack returns (value,true) for a Stack/alias at the end of the path, the results of the descent into the Stack it converts to when elements remain, (nil,false) for a non-Stack; traverseStackInCondition returns (the Condition,true) at the end of the path, continues with the Condition's own Expression() when elements remain, (nil,false) for a non-Condition; the handler returns the Stack helper's results if it succeeded, else the Condition helper's, else (element,true) for a leaf at the end of the path, else (nil,false); Stack.Traverse forwards path and results and yields (nil,false) when uninitialised. Lookup = the same stack.index that Index uses (position translation proved in C01). R-NIL/R-REFL/R-BND/R-TA census restricted to everything reachable from Traverse: no tree or path can panic. R-CONV (from C12): 'descendable' is what the converters say, and they decline only nil, zero and unrelated values on every path (no cached or validity-dependent verdict). stack.traverse gives up (returns nothing without consulting the handler) only because the receiver is invalid, the path is empty or the lookup itself - which honours the index options - reported 'not found'. R-TT on (*stack).valid - the gate of every level: initialised and, if a validity closure is installed, approved by it; nothing else (a recorded error) closes the gate. R-SEQ wrappers: the exported Index returns the private lookup's results unchanged.",
 		NotDecided: "that the converters recognise exactly the Stack/Condition aliases (C12); equality with an independently written oracle on concrete trees (the induction argument is by reading the tables, not mechanised end to end).",
 		Run: func(c *Ctx) {
 			c.ruleInv()
@@ -204,6 +210,8 @@ var properties = map[string]PropSpec{
 				c.ruleCensus(c.reach(root), map[string]bool{"R-NIL": true, "R-REFL": true, "R-TA": true, "R-BND": true})
 			}
 			c.ruleTraverse()
+			c.ttStackValid() // the level gate: initialised, and the validity closure (if any) agrees - nothing else
+			c.seqWrappers()  // the exported Index the statement compares with returns the private lookup's results unchanged
 			c.ruleConv() // "descendable" is what the converters say: they decline only nil, zero and unrelated values (no stale verdict)
 			c.rep.floor("R-LEVEL", 4)
 			c.rep.floor("R-TRAV", 5)
@@ -212,7 +220,7 @@ var properties = map[string]PropSpec{
 	},
 	"C01": {
 		Level: "other",
-		Explanation: "Each mutator is verified, once and for all inputs, against the list operation the property names, by a symbolic sequence algebra over the SSA: the header a mutator leaves behind is evaluated on every path as a concatenation of segments of the header it found (h0) and single values, and compared with the specification by linear entailment (Fourier-Motzkin). Pop: h0 without slot k and the value returned is h0[k], k = 1 under FIFO and len-1 otherwise; untouched header and (nil,false) when empty. Insert: h0 with x inserted exactly once at the clamped position (end when left >= Len, front when left <= 0, slot left+1 otherwise), everything else unchanged and in order, flag false on non-storing paths. Reset: h0[:1]. Replace: one element store of the argument at slot i+1, flag true exactly when stored. Swap: two element stores exchanging the values found at slots i+1 and j+1. Reverse: the loop exchanges mirror slots (a + b == len, by a conserved-sum loop invariant), starting at (1, len-1), one step per iteration, a <= b in the body and a >= b at every exit (no pair skipped, none exchanged twice). Remove: a filter loop over slots 1..len-1 in ascending order keeping every slot except the looked-up position, stored as [configuration] ++ kept, returning the element looked up. Push: both append loops visit x[0], x[1], ... one per iteration and append at the end of the current header (nil values included: no nil test). stack.index: i in [0,Len) addresses slot i+1, -k slot len-k, an oversize index the last slot (options on), and the value returned is the slot at the position returned. The nine exported wrappers hand their arguments to the worker unchanged and return its results. R-SLOT0: no header store or element store can lose, move or overwrite the configuration slot, so Len() == len(header)-1 always (R-CAPEQ Stack.Len). R-ELEMINDEP: Reset does not depend on element values. Since every mutator is a list operation on the header it finds, the content after any sequential history is that of the ordered list, by induction on the history. R-CAPEQ (from C03): the fullness test both push loops rely on is exactly len(header) == configured capacity (not the backing array's). stack.index's found flag means exactly 'the slot is not nil'. Front and Back: one upward scan 0..Len-1 and one downward scan Len-1..0, each in its mode, left only past the last position or with a position found. Replace stores for exactly the indices 0..Len-1 (a non-storing path is confined to i<0 or i>=Len). The worker push hands its own batch to the append loops untouched. R-LATCH: FIFO mode is a one-way latch ('once FIFO mode is on'). R-TT: IsEmpty - which gates Pop and Reverse - is true exactly for an uninitialised instance or Len()==0. R-BACKCAP: builtin cap() is never applied to a stack (only the configured capacity is consulted).",
+		Explanation: "Each mutator is verified, once and for all inputs, against the list operation the property names, by a symbolic sequence algebra over the SSA: the header a mutator leaves behind is evaluated on every path as a concatenation of segments of the header it found (h0) and single values, and compared with the specification by linear entailment (Fourier-Motzkin). Pop: h0 without slot k and the value returned is h0[k], k = 1 under FIFO and len-1 otherwise; untouched header and (nil,false) when empty. Insert: h0 with x inserted exactly once at the clamped position (end when left >= Len, front when left <= 0, slot left+1 otherwise), everything else unchanged and in order, flag false on non-storing paths. Reset: h0[:1]. Replace: one element store of the argument at slot i+1, flag true exactly when stored. Swap: two element stores exchanging the values found at slots i+1 and j+1. Reverse: the loop exchanges mirror slots (a + b == len, by a conserved-sum loop invariant), starting at (1, len-1), one step per iteration, a <= b in the body and a >= b at every exit (no pair skipped, none exchanged twice). Remove: a filter loop over slots 1..len-1 in ascending order keeping every slot except the looked-up position, stored as [configuration] ++ kept, returning the element looked up. Push: both append loops visit x[0], x[1], ... one per iteration and append at the end of the current header (nil values included: no nil test). stack.index: i in [0,Len) addresses slot i+1, -k slot len-k, an oversize index the last slot (options on), and the value returned is the slot at the position returned. The nine exported wrappers hand their arguments to the worker unchanged and return its results. R-SLOT0: no header store or element store can lose, move or overwrite the configuration slot, so Len() == len(header)-1 always (R-CAPEQ Stack.Len). R-ELEMINDEP: Reset does not depend on element values. Since every mutator is a list operation on the header it finds, the content after any sequential history is that of the ordered list, by induction on the history. R-CAPEQ (from C03): the fullness test both push loops rely on is exactly len(header) == configured capacity (not the backing array's). stack.index's found flag means exactly 'the slot is not nil'. Front and Back: one upward scan 0..Len-1 and one downward scan Len-1..0, each in its mode, left only past the last position or with a position found. Replace stores for exactly the indices 0..Len-1 (a non-storing path is confined to i<0 or i>=Len). The worker push hands its own batch to the append loops untouched. R-LATCH: FIFO mode is a one-way latch ('once FIFO mode is on'). R-TT: IsEmpty - which gates Pop and Reverse - is true exactly for an uninitialised instance or Len()==0. R-BACKCAP: builtin cap() is never applied to a stack (only the configured capacity is consulted). Pop re-slices the header and writes no element slot.",
 		NotDecided: "Front/Back (they skip nil slots by a scan) and IsEmpty are covered only through Len/Index; the success flags of Pop/Remove for nil elements (they report false for a nil element although it was removed); capacity interaction (C03), concurrent histories (C10); the argument is an induction over verified single operations, with hand-written recognisers (level other).",
 		Run: func(c *Ctx) {
 			c.ruleInv()
@@ -224,12 +232,12 @@ var properties = map[string]PropSpec{
 			c.ttIsEmpty()
 			c.ruleResetElemIndependent()
 			c.rep.floor("R-SEQ", 19)
-			c.rep.floor("R-SLOT0", 12)
+			c.rep.floor("R-SLOT0", 9)
 		},
 	},
 	"C20": {
 		Level: "other",
-		Explanation: "Structural necessary conditions of C20, decided on the SSA of everything reachable from Stack.Reveal. (W) The transitive write set of Reveal is {element slot, Condition expression, lock bookkeeping}: no slice header is stored, so no stack changes its length (nothing added, dropped or duplicated by shifting), no configuration word (kind, options, parenthetical flag) is written, nothing is appended. (PROV) The only element-slot store in the scope is replace(), called once (revealDescend), at the index the inner stack was found at, and on every path the value stored is the inner stack itself (re-stored in place) or its only child - the latter exactly under kind != NOT, exactly one element, child is a Stack/Condition (Interface) and neither wrapper nor child parenthetical (facts required on each such path); reveal hands revealDescend the element it found at i together with that i; the only expression store is SetExpression in revealSingle, which gives the Condition back its own (converted, revealed-in-place) expression stack. (ALLOC) No Stack, Condition or configuration is constructed in the scope, so nesting depth cannot grow. (LOCK) In every function of the scope, nothing called while a stack's lock is held (region = CFG-reachable from lock() without passing unlock()) locks the same stack again: no self-deadlock with the mutex enabled. (PANIC) The nil/reflect/type-assertion/bounds census restricted to the scope, with preconditions checked at every call site. R-TT: IsParen on both types answers the raw parenthetical bit (the notion of \"parenthetical\" Reveal's hoist condition reads). R-NILPTR: a method of the package's own interfaces (Operator, Interface) is invoked on a user-supplied value only where an in-package nil-pointer predicate said no about it, or on the operator stored in a Condition: a nil *Stack / *Condition / *ComparisonOperator among the values never has a method called through it.",
+		Explanation: "Structural necessary conditions of C20, decided on the SSA of everything reachable from Stack.Reveal. (W) The transitive write set of Reveal is {element slot, Condition expression, lock bookkeeping}: no slice header is stored, so no stack changes its length (nothing added, dropped or duplicated by shifting), no configuration word (kind, options, parenthetical flag) is written, nothing is appended. (PROV) The only element-slot store in the scope is replace(), called once (revealDescend), at the index the inner stack was found at, and on every path the value stored is the inner stack itself (re-stored in place) or its only child - the latter exactly under kind != NOT, exactly one element, child is a Stack/Condition (Interface) and neither wrapper nor child parenthetical (facts required on each such path); reveal hands revealDescend the element it found at i together with that i; the only expression store is SetExpression in revealSingle, which gives the Condition back its own (converted, revealed-in-place) expression stack. (ALLOC) No Stack, Condition or configuration is constructed in the scope, so nesting depth cannot grow. (LOCK) In every function of the scope, nothing called while a stack's lock is held (region = CFG-reachable from lock() without passing unlock()) locks the same stack again: no self-deadlock with the mutex enabled. (PANIC) The nil/reflect/type-assertion/bounds census restricted to the scope, with preconditions checked at every call site. R-TT: IsParen on both types answers the raw parenthetical bit (the notion of \"parenthetical\" Reveal's hoist condition reads). R-NILPTR: a method of the package's own interfaces (Operator, Interface) is invoked on a user-supplied value only where an in-package nil-pointer predicate said no about it, or on the operator stored in a Condition: a nil *Stack / *Condition / *ComparisonOperator among the values never has a method called through it. L7: a mutex stored into a configuration is allocated on the spot, so a parent and its members never share one (Reveal locks both).",
 		NotDecided: "that the depth-first leaf sequence is identical before and after for every tree and that both reduce to the same fully-unwrapped form (tree-valued functional equality); deadlock through a stack that contains itself or through two goroutines (C10); user String()/Operator code.",
 		Run: func(c *Ctx) {
 			c.ruleInv()
@@ -238,6 +246,7 @@ var properties = map[string]PropSpec{
 			}
 			c.ruleReveal()
 			c.ruleNilPtrInvoke(nil) // a nil pointer among the elements satisfies Interface too: nothing is asked of it
+			c.ruleMutexFresh()      // parent and member never share a mutex (Reveal locks both)
 			// "parenthetical" as Reveal reads it is the raw option bit, on both types
 			c.ttGetter("Stack.IsParen", "parens", true)
 			c.ttGetter("Condition.IsParen", "parens", true)
@@ -263,8 +272,8 @@ var properties = map[string]PropSpec{
 			// with the mutex enabled the guards are evaluated inside the critical section of the write
 			c.withConcurrent(func() { c.ruleCapInv() })
 			c.ruleMarshalOut() // an initialised (capacity-bearing) receiver is never re-seated by Marshal
-			c.rep.floor("R-SLOT0", 12)
-			c.rep.floor("R-CAP", 10)
+			c.rep.floor("R-SLOT0", 9)
+			c.rep.floor("R-CAP", 7)
 			c.rep.floor("R-CAPEQ", 6)
 			c.rep.floor("R-CAPW", 1)
 			c.rep.floor("R-BND", 3)
@@ -292,7 +301,7 @@ var properties = map[string]PropSpec{
 			c.seqIndex()
 			c.ruleTraverse() // Traverse gives up only for the reasons Index would: the lookup (which honours the index options) decides
 			c.rep.floor("R-SEQ", 5)
-			c.rep.floor("R-BND", 100)
+			c.rep.floor("R-BND", 80)
 			c.rep.floor("R-NIL", 1300)
 			c.rep.floor("R-REFL", 30)
 			c.rep.floor("R-TA", 2)
@@ -355,8 +364,8 @@ var properties = map[string]PropSpec{
 			c.ruleOptionWritesOnlyOpt()
 			c.ruleMask() // switching the option on and off is exactly |= and &^= of its own bit
 			c.ruleFlagsDistinct()
-			c.rep.floor("R-MASK", 13)
-			c.rep.floor("R-FLAGS", 26)
+			c.rep.floor("R-MASK", 11)
+			c.rep.floor("R-FLAGS", 22)
 			c.rep.floor("R-TT", 5)
 			c.rep.floor("R-SCAN", 1)
 			c.rep.floor("R-APPEND", 2)
@@ -386,11 +395,11 @@ var properties = map[string]PropSpec{
 			c.ruleStrVerbatimSettings() // symbol and delimiter reach the rendering exactly as stored
 			c.ttGetState()
 			c.rep.floor("R-STR", 3)
-			c.rep.floor("R-FLAGS", 26)
-			c.rep.floor("R-MASK", 13)
+			c.rep.floor("R-FLAGS", 22)
+			c.rep.floor("R-MASK", 11)
 			c.rep.floor("R-TT", 10)
 			c.rep.floor("R-SWITCH", 28)
-			c.rep.floor("R-PAIR", 24)
+			c.rep.floor("R-PAIR", 20)
 			c.rep.floor("R-LATCH", 2)
 			c.rep.floor("R-LOGLEVEL", 6)
 			c.rep.floor("R-KINDGUARD", 2)
@@ -414,9 +423,9 @@ var properties = map[string]PropSpec{
 			c.ruleResetElemIndependent()
 			c.rep.floor("R-NIL", 1300)
 			c.rep.floor("R-REFL", 30)
-			c.rep.floor("R-ZERO", 120)
+			c.rep.floor("R-ZERO", 100)
 			c.rep.floor("R-HANDLE", 8)
-			c.rep.floor("R-INV", 9)
+			c.rep.floor("R-INV", 7)
 		},
 	},
 	"C11": {
@@ -448,8 +457,8 @@ var properties = map[string]PropSpec{
 			c.rep.floor("R-RO", 85)
 			c.rep.floor("R-RO-ARG", 1)
 			c.rep.floor("R-RO-NESTED", 8)
-			c.rep.floor("R-MASK", 13)
-			c.rep.floor("R-FLAGS", 26)
+			c.rep.floor("R-MASK", 11)
+			c.rep.floor("R-FLAGS", 22)
 		},
 	},
 }
